@@ -24,6 +24,32 @@ def repo_check():
     return path
 
 
+def patch_module(mod):
+    """Replace every module-level reference to threading / time / datetime
+    (the modules themselves or names imported from them) by the simulator's
+    shims, however the module spells its imports."""
+    import datetime as _dt
+    import threading as _th
+    import time as _t
+    import types
+
+    dt_mod_shim = types.SimpleNamespace(
+        datetime=core.datetime_shim, timedelta=_dt.timedelta, date=_dt.date,
+        time=_dt.time)
+    swaps = [
+        (_th, core.threading_shim), (_t, core.time_shim),
+        (_dt, dt_mod_shim), (_dt.datetime, core.datetime_shim),
+        (_th.Thread, core.SimThread), (_th.RLock, core.SimRLock),
+        (_th.Lock, core.SimLock), (_th.Event, core.SimEvent),
+        (_t.sleep, core.time_shim.sleep), (_t.time, core.time_shim.time),
+        (_t.monotonic, core.time_shim.monotonic),
+    ]
+    for name, value in list(vars(mod).items()):
+        for real, shim in swaps:
+            if value is real:
+                setattr(mod, name, shim)
+
+
 def install_threads():
     """Scheduler seams: threading/time/datetime in the threaded modules."""
     if _installed.get('threads'):
@@ -33,13 +59,8 @@ def install_threads():
     from bardolph.controller import light_set, light, script_job
     from bardolph.vm import machine
 
-    job_control.threading = core.threading_shim
-    clock.threading = core.threading_shim
-    clock.time = core.time_shim
-    clock.datetime = core.datetime_shim
-    light_set.threading = core.threading_shim
-    light_set.time = core.time_shim
-    light.time = core.time_shim
+    for mod in (job_control, clock, light_set, light):
+        patch_module(mod)
 
     tracing.scope_module(job_control, instructions=(
         'JobControl._run_next_job', 'JobControl._enqueue_job',
@@ -169,8 +190,8 @@ def build_world(sim, population, plan=None, settings=None, discover=True,
     runtime_module.configure()
     net = simnet.SimNet(sim, simbulbs.make_bulbs(population), plan)
     # one LifxLAN for the life of the world, with a seeded source id
+    random.seed(0x5EED)          # lifxlan draws its source id from `random`
     api = lifx_lan_api.LifxLanApi()
-    api._lifxlan.source_id = 0x5EED0000 + 1
     injection.bind_instance(api).to(i_controller.LightApi)
     ls = light_set.LightSet()
     ok = None
